@@ -53,7 +53,7 @@ pub fn run_stream_fuzz(ctx: &Ctx, id: &str, ev: &mut Evidence, rep: &mut Report)
     }
     let default_runs = ctx.tier.pick(200_000u64, 3_000_000u64);
     let runs = std::env::var("VERIF_FUZZ_RUNS").ok().and_then(|s| s.parse::<u64>().ok()).unwrap_or(default_runs);
-    let build = std::process::Command::new("cargo").current_dir(&fuzz_dir).env("CARGO_NET_OFFLINE", "true").args(["+nightly", "fuzz", "build", "stream_prop"]).output();
+    let build = std::process::Command::new("cargo").current_dir(&fuzz_dir).env("CARGO_NET_OFFLINE", "true").args(["+nightly", "fuzz", "build", "-s", "none", "stream_prop"]).output();
     match build {
         Ok(o) if o.status.success() => {}
         other => {
@@ -69,6 +69,7 @@ pub fn run_stream_fuzz(ctx: &Ctx, id: &str, ev: &mut Evidence, rep: &mut Report)
     let out = std::process::Command::new(&bin)
         .current_dir(&work)
         .env("VFUZZ_PROP", id)
+        .env("VERIF_NO_WATCHDOG", "1")
         .env("VERIF_ROOT", crate::ev::root())
         .arg(&cdir)
         .arg(format!("-artifact_prefix={}/", adir.display()))
